@@ -188,6 +188,8 @@ type Conn struct {
 	// from 1) fails; FailAfter=false: before it takes effect, true: after.
 	FailAt    int64
 	FailAfter bool
+	failAt    int64 // atomic copy (SetFail may be called while the connection is in use)
+	failAfter int32
 	ops       int64
 	// FailSendType, when set, makes the next Send of that packet type fail
 	// (before=not delivered / after=delivered).
@@ -221,6 +223,24 @@ func (c *Conn) FailNextSend(typ packet.Type, after bool, skip int) {
 	c.failSend.Store(&sendFault{typ: typ, after: after, skip: int32(skip)})
 }
 
+// SetFail arms the fault plan while the connection is in use: the at-th
+// operation counted from now on fails (after=false: before it takes effect).
+func (c *Conn) SetFail(at int64, after bool) {
+	a := int32(0)
+	if after {
+		a = 1
+	}
+	atomic.StoreInt32(&c.failAfter, a)
+	atomic.StoreInt64(&c.failAt, atomic.LoadInt64(&c.ops)+at)
+}
+
+func (c *Conn) plan() (int64, bool) {
+	if at := atomic.LoadInt64(&c.failAt); at != 0 {
+		return at, atomic.LoadInt32(&c.failAfter) == 1
+	}
+	return c.FailAt, c.FailAfter
+}
+
 // Pair creates a connected pair. a is conventionally the broker/client side
 // under test, b the harness side.
 func Pair(nameA, nameB string, log *Log) (*Conn, *Conn) {
@@ -248,6 +268,7 @@ func (c *Conn) Send(pkt packet.Generic, _ bool) error {
 	c.sendMu.Lock()
 	defer c.sendMu.Unlock()
 	if c.Closed() {
+		c.Log.AddPkt(c.Name, "send-closed", pkt, "connection already closed")
 		return ErrClosed
 	}
 	buf := make([]byte, pkt.Len())
@@ -266,7 +287,8 @@ func (c *Conn) Send(pkt packet.Generic, _ bool) error {
 		}
 	}
 	op := atomic.AddInt64(&c.ops, 1)
-	fail, after := c.FailAt != 0 && op == c.FailAt, c.FailAfter
+	planAt, planAfter := c.plan()
+	fail, after := planAt != 0 && op == planAt, planAfter
 	if sf, _ := c.failSend.Load().(*sendFault); sf != nil && sf.typ == pkt.Type() {
 		if atomic.AddInt32(&sf.skip, -1) == -1 {
 			fail, after = true, sf.after
@@ -327,8 +349,8 @@ func (c *Conn) Receive() (packet.Generic, error) {
 				return nil, err
 			}
 			op := atomic.AddInt64(&c.ops, 1)
-			if c.FailAt != 0 && op == c.FailAt {
-				if !c.FailAfter {
+			if planAt, planAfter := c.plan(); planAt != 0 && op == planAt {
+				if !planAfter {
 					c.Log.AddPkt(c.Name, "recv-lost", pkt, "injected failure before the packet was read")
 					_ = c.Close()
 					return nil, ErrInjected
